@@ -400,6 +400,29 @@ class Batch(object):
         self.nondeterministic.extend(out['nondeterministic'])
 
 
+def _batch_merge(self, other):
+    self.n += other.n
+    self.ok += other.ok
+    self.blocked.update(other.blocked)
+    self.discard += other.discard
+    self.violations.extend(other.violations)
+    self.harness.extend(other.harness)
+    self.faults.update(other.faults)
+    self.probes.update(other.probes)
+    self.skipped.update(other.skipped)
+    self.states |= set((getattr(other, 'tag', ''),) + tuple(s) for s in other.states)
+    self.ops += other.ops
+    self.clauses += other.clauses
+    self.nontrivial |= other.nontrivial
+    self.samples = (self.samples + other.samples[:2])[:4]
+    self.resampled += other.resampled
+    self.nondeterministic.extend(other.nondeterministic)
+    self.wall_s = getattr(self, 'wall_s', 0.0) + getattr(other, 'wall_s', 0.0)
+
+
+Batch.merge = _batch_merge
+
+
 def run_batch(engine_name, prop, tier, batch_seed, n_runs=None, budget_s=None, chunk=25,
               explicit_plans=None, resample=50, start_index=0, stop_on_violation=False):
     """Run a batch: either `n_runs` runs, or runs until `budget_s` seconds elapsed.
